@@ -100,6 +100,32 @@ def make_symgen():
     from .regex import regex_to_z3
     from .values import MDict, Obj, OSeq, PProd, SBool, SInt, SStr
 
+    _alpha_cache = {}
+
+    def alphabet_of(pattern):
+        """characters that occur in some string of the pattern (exact, decided by z3 per printable character)"""
+        if pattern not in _alpha_cache:
+            rx = regex_to_z3(pattern)
+            s = z3.String("alphabet!s")
+            chars = set()
+            for o in range(32, 127):
+                sol = z3.Solver()
+                sol.set("timeout", 2000)
+                sol.add(z3.InRe(s, rx), z3.Contains(s, z3.StringVal(chr(o))))
+                if sol.check() != z3.unsat:
+                    chars.add(chr(o))
+            _alpha_cache[pattern] = chars
+        return _alpha_cache[pattern]
+
+    _ne_cache = {}
+
+    def never_empty(pattern):
+        if pattern not in _ne_cache:
+            sol = z3.Solver()
+            sol.add(z3.InRe(z3.StringVal(""), regex_to_z3(pattern)))
+            _ne_cache[pattern] = sol.check() == z3.unsat
+        return _ne_cache[pattern]
+
     class SymGen:
         symbolic = True
 
@@ -122,6 +148,11 @@ def make_symgen():
             self.ctx.assume(z3.InRe(t, smt.PRINTABLE))
             if pattern is not None:
                 self.ctx.assume(z3.InRe(t, regex_to_z3(pattern)))
+                if self.I.charsets is None:
+                    self.I.charsets = {}
+                self.I.charsets[name] = alphabet_of(pattern)
+                if never_empty(pattern):
+                    self.I.nonempty = set(self.I.nonempty) | {name}
             return SStr(t)
 
         def int(self, name, lo=None, hi=None, default=0):
